@@ -213,3 +213,47 @@ def structDiffC02 (req : List String) (obs : String) : Option String :=
   | _, _ => none
 
 end FV
+
+namespace FV
+open Spec (File Rt Outcome Output Dest)
+
+def outcomeOutputs : Outcome → Option (List Output × Bool)
+  | .done _ out => some (out, false)
+  | .stopped out => some (out, true)
+  | .undefined => none
+
+/-- C09 on the implementation's program, semantically: executed on directed files, the policy
+    produces exactly the outputs of `( expression ) -a print` when the tree has no action, and
+    exactly the outputs of the written actions otherwise. -/
+def checkC09Sem (req : List String) (obs : String) : Option String :=
+  match treeOf req obs, decodeCompile obs with
+  | some e, .ok t0 t1 m0 ((text, _) :: _) =>
+    if t0 ≠ t1 then none else
+    match readProgram text, decodeIoMap m0 with
+    | some p, some io =>
+      let now := t0
+      let expectTree := if !e.hasAction then Expr.and (.prec e) (.action .print) else e
+      let files := directedFiles now e
+      files.findSome? fun f =>
+        match outcomeOutputs (Spec.evalFind rtConcrete now expectTree f) with
+        | none => none
+        | some want =>
+          match Scheme.runPolicy rtConcrete f io p.bindings p.body with
+          | .outcome got =>
+            let extra : Bool := match outcomeOutputs got with
+              | some (outs, _) => !(outs.foldl (fun (rem : Option (List Output)) o =>
+                  match rem with
+                  | some l => if l.any (· = o) then some (l.erase o) else none
+                  | none => none) (some want.1)).isSome
+              | none => true
+            -- with an action in the tree the property only forbids ADDED output; dropped output is C02's business
+            if outcomeOutputs got = some want || (e.hasAction && !extra) then none else
+              some ((if e.hasAction then "outputs-differ-from-the-written-actions" else "implicit-print-wrong") ++
+                " file{" ++ showFile f ++ "} want{" ++ showOutcome (Spec.evalFind rtConcrete now expectTree f) ++ "} policy{" ++ showOutcome got ++ "}")
+          | .failed why => some ("policy-fails-at-run-time file{" ++ showFile f ++ "} " ++ why)
+    | none, _ => some "program-does-not-read-back"
+    | _, none => some "unreadable-destination-table"
+  | _, .panic stg => some ("panic " ++ stg)
+  | _, _ => none
+
+end FV
